@@ -29,7 +29,7 @@ func verifHarness_C16_interceptor() {
 	ic := NewAccessControlInterceptor(log.NewNoopLogger(), nil, list)
 
 	// names "found in the request" (after translation): 0..3 names from the universe, or a visit error
-	nFound := verifChoose("found", 4)
+	nFound := verifChoose("found", verifParam("maxfound", 3)+1)
 	c16Found = nil
 	anyForbidden := false
 	for k := 0; k < nFound; k++ {
